@@ -113,6 +113,10 @@ def body_cons(ch, ctx):
     it2 = gffutils.DataIterator([feature_from_line(t) for t in texts], checklines=cl)
     ctx.check(dict(it2.dialect) == got, "feature-list-dialect-differs-from-path", sig, checklines=cl, file=texts[:3],
               path=got, features=dict(it2.dialect))
+    # ... and so must the same text handed over as a string, or through a gzip file
+    it4 = gffutils.DataIterator("\n".join(texts) + "\n", from_string=True, checklines=cl)
+    ctx.check(dict(it4.dialect) == got, "string-input-dialect-differs-from-path", sig, checklines=cl, file=texts[:3],
+              path=got, string=dict(it4.dialect))
     for i, ((cols, items, extras), text) in enumerate(zip(lines, texts)):
         first_answer = helpers.infer_dialect(text.split("\t")[8])
         per = dict(first_answer)
